@@ -159,7 +159,9 @@ impl<F: Float + SampleUniform + std::fmt::Debug, D: Hash + Copy, H: Hasher + Def
         let k: usize = Uniform::<usize>::new(0, m)
             .unwrap()
             .sample(&mut rand_generator); // m beccause upper bound of range is excluded
-        if r <= self.hsketch[k] {
+        // on an exact tie of the values (possible with f32) the smaller hash wins, so that the bin does not
+        // depend on the order in which the items are sketched
+        if r < self.hsketch[k] || (r == self.hsketch[k] && hval1 < self.values[k]) {
             self.hsketch[k] = r;
             self.values[k] = hval1;
             if !self.init[k] {
@@ -338,7 +340,9 @@ impl<F: Float + SampleUniform + std::fmt::Debug, D: Hash + Copy, H: Hasher + Def
         let unit_range = Uniform::<F>::new(num::zero::<F>(), num::one::<F>()).unwrap();
         let r: F = unit_range.sample(&mut rand_generator);
         let k: usize = unif_0m.sample(&mut rand_generator); // m beccause upper bound of range is excluded
-        if r <= self.hsketch[k] {
+        // on an exact tie of the values (possible with f32) the smaller hash wins, so that the bin does not
+        // depend on the order in which the items are sketched
+        if r < self.hsketch[k] || (r == self.hsketch[k] && hval1 < self.values[k]) {
             self.hsketch[k] = r;
             self.values[k] = hval1;
             if !self.init[k] {
